@@ -76,7 +76,7 @@ void bn_mxp_basic(bn_t c, const bn_t a, const bn_t b, const bn_t m) {
 #if BN_MOD == MONTY
 		bn_mod_monty_conv(t, a, m);
 #else
-		bn_copy(t, a);
+		bn_mod(t, a, m);
 #endif
 
 		/* Accumulate in r, since c can be the same variable as b or m. */
@@ -171,7 +171,7 @@ void bn_mxp_slide(bn_t c, const bn_t a, const bn_t b, const bn_t m) {
 #if BN_MOD == MONTY
 		bn_mod_monty_conv(t, a, m);
 #else /* BN_MOD == BARRT || BN_MOD == RADIX */
-		bn_copy(t, a);
+		bn_mod(t, a, m);
 #endif
 
 		bn_copy(tab[0], t);
@@ -432,7 +432,7 @@ void bn_mxp_dig(bn_t c, const bn_t a, dig_t b, const bn_t m) {
 #if BN_MOD == MONTY
 		bn_mod_monty_conv(t, a, m);
 #else
-		bn_copy(t, a);
+		bn_mod(t, a, m);
 #endif
 
 		bn_copy(c, t);
